@@ -6,6 +6,8 @@ CONSTANTS
   CLOSESIGNAL = FALSE
   Closers = {"X"}
   RECHECK = TRUE
+  SENDER = FALSE
+  RELOCK = FALSE
   GEN = FALSE
 INVARIANTS C13_NoDeliveryAfterClose C13_ClosedReported
 PROPERTIES C13_CloseReturns C13_RecvReturnsAfterCancel
